@@ -260,7 +260,10 @@ class Impl:
             except GenerationError as e:
                 out["clauses"] = None
                 out["why"] = "GenerationError: " + str(e)[:100]
-        # forced application on a fresh tree: infer_sharing_attributes on loops validate would refuse
+        # forced application on a fresh tree: infer_sharing_attributes on loops validate refuses
+        out["forced"] = None
+        if out["accepted"]:
+            return out
         psy2, routine2, _ = self.parse([loop])
         node2 = routine2.walk(Loop)[0]
         try:
@@ -516,6 +519,53 @@ def first_write_in_inner_loop(loop, v):
     return bool(s_(loop[5], 0))
 
 
+def array_shape(loop, a, privatised):
+    """why the subscripts of array a defeat the dependence test: classification of its subscripts"""
+    subs = []
+
+    def e_(e):
+        k = e[0]
+        if k == "idx":
+            if e[1] == a:
+                subs.extend(e[2])
+            for q in e[2]:
+                e_(q)
+        elif k == "un":
+            e_(e[2])
+        elif k == "bin":
+            e_(e[2])
+            e_(e[3])
+        elif k == "intr":
+            for q in e[2]:
+                e_(q)
+
+    def s_(ss):
+        for st in ss:
+            if st[0] == "assign":
+                if st[1] == a:
+                    subs.extend(st[2])
+                for q in st[2]:
+                    e_(q)
+                e_(st[3])
+            elif st[0] == "if":
+                e_(st[1])
+                s_(st[2])
+                s_(st[3])
+            elif st[0] == "do":
+                for q in st[2:5]:
+                    e_(q)
+                s_(st[5])
+    s_([loop])
+    names = set()
+    for q in subs:
+        mf.expr_names(q, names)
+    if names & set(privatised):
+        return "subscript-uses-privatised-scalar"
+    if any(q[0] == "idx" or (q[0] == "bin" and q[1] in ("Div", "Mul", "Pow")) or q[0] == "intr" for q in subs):
+        return "nonaffine-subscript"
+    return "affine-subscripts"
+
+
 def diagnose(loop, vals, private, fprivate):
     """which variables carry values between iterations (or expose poisoned copies) -> finding keys"""
     x = loop[1]
@@ -551,7 +601,7 @@ def diagnose(loop, vals, private, fprivate):
                     else:
                         keys.setdefault("parallel_loop/shared-scalar-carried", v)
                 else:
-                    keys.setdefault("dep_tools/array-dependence-missed", v)
+                    keys.setdefault("dep_tools/array-dependence-missed/" + array_shape(loop, v, P - {x}), v)
     return keys
 
 
@@ -568,6 +618,25 @@ def nlist(names, nm):
 
 
 HEADER = "From Coq Require Import ZArith. From PV Require Import Fort.Syntax Fort.Sem C09.Model.\nOpen Scope Z_scope."
+JOBS = """
+Definition xv_case := (stmt * clauses * list (nat * nat) * store * option (list (loc * Z)))%type.
+Definition junk_store : store := mkStore (fun _ => 4242) (fun _ => []).
+Definition xv_check (c : xv_case) : bool :=
+  match c with
+  | (loop, cl, sched, s, exp) =>
+      match omp_exec 4000 cl loop (fun _ => junk_store) sched s, exp with
+      | Some s', Some fin => forallb (fun lv => Z.eqb (val s' (fst lv)) (snd lv)) fin
+      | None, None => true
+      | _, _ => false
+      end
+  end.
+Inductive job := JInfer (c : infer_case) | JVerdict (c : verdict_case) | JEqual (c : verdict_case)
+               | JKnown (c : verdict_case) | JSafe (c : safe_case) | JXv (c : xv_case).
+Definition run_job (j : job) : bool :=
+  match j with
+  | JInfer c => infer_agrees c | JVerdict c => verdict_agrees c | JEqual c => verdict_equal c
+  | JKnown c => verdict_known c | JSafe c => safe_holds c | JXv c => xv_check c
+  end."""
 
 
 # ---------------------------------------------------------------------------------- main
@@ -598,7 +667,7 @@ def run(ctx):
     rng = ctx.rng("gen")
     gen = LoopGen(rng)
     loops = [(tag, lp) for tag, lp in SHAPES]
-    for _ in range(ctx.pick(230, 2400)):
+    for _ in range(ctx.pick(125, 1800)):
         loops.append(("gen", gen.loop()))
     results = []
     for idx, (tag, lp) in enumerate(loops):
@@ -607,55 +676,68 @@ def run(ctx):
         results.append(res)
     # ---- region form (infer only)
     regions = []
-    for _ in range(ctx.pick(60, 500)):
+    for _ in range(ctx.pick(30, 300)):
         got = impl.run_region(gen.pre(), gen.loop())
         if got:
             regions.append(got)
     ctx.log("ran implementation on %d loops + %d regions" % (len(results), len(regions)))
 
-    # ---- (1) infer correspondence
-    infer_cases, infer_src = [], []
-    for res in results:
-        if res.get("forced") is not None:
-            nm = names_for([res["seen"]])
-            p, f, ns = res["forced"]
-            infer_cases.append("(%s, (%s, %s, %s))" % (mf.stmts_to_coq([res["seen"]], nm), nlist(p, nm), nlist(f, nm), nlist(ns, nm)))
-            infer_src.append(("forced", res["source"], res["forced"]))
+    # ---- model evaluation: one sharded coqc run over tagged jobs
+    jobs, tags = [], []
+
+    def add(kind, term, ref):
+        jobs.append("(%s %s)" % (kind, term))
+        tags.append((kind, ref))
+    infer_src = []
+    for ri, res in enumerate(results):
+        nm = names_for([res["seen"]])
+        body = mf.stmts_to_coq([res["seen"]], nm)
         if res["accepted"]:
-            nm = names_for([res["seen"]])
             p, f, ns = res["infer"]
-            infer_cases.append("(%s, (%s, %s, %s))" % (mf.stmts_to_coq([res["seen"]], nm), nlist(p, nm), nlist(f, nm), nlist(ns, nm)))
             infer_src.append(("accepted", res["source"], res["infer"]))
+            add("JInfer", "(%s, (%s, %s, %s))" % (body, nlist(p, nm), nlist(f, nm), nlist(ns, nm)), len(infer_src) - 1)
+        elif res.get("forced") is not None:
+            p, f, ns = res["forced"]
+            infer_src.append(("forced", res["source"], res["forced"]))
+            add("JInfer", "(%s, (%s, %s, %s))" % (body, nlist(p, nm), nlist(f, nm), nlist(ns, nm)), len(infer_src) - 1)
+            ctx.hist("forced_clauses", "p%d f%d s%d" % (len(p), len(f), len(ns)))
+        vc = "(%s, %s)" % (mf.stmt_to_coq(res["seen"], nm), "true" if res["accepted"] else "false")
+        add("JVerdict", vc, ri)
+        if ctx.thorough:          # statistics only: how often the model knows / equals the verdict
+            add("JEqual", vc, ri)
+            add("JKnown", vc, ri)
     for body, (p, f, ns), txt in regions:
         nm = names_for(body)
-        infer_cases.append("(%s, (%s, %s, %s))" % (mf.stmts_to_coq(body, nm), nlist(p, nm), nlist(f, nm), nlist(ns, nm)))
         infer_src.append(("region", txt, (p, f, ns)))
+        add("JInfer", "(%s, (%s, %s, %s))" % (mf.stmts_to_coq(body, nm), nlist(p, nm), nlist(f, nm), nlist(ns, nm)), len(infer_src) - 1)
         ctx.hist("region_clauses", "p%d f%d s%d" % (len(p), len(f), len(ns)))
-    bad_infer = ctx.coq_eval_failing(HEADER, "infer_case", "infer_agrees", infer_cases, shard=150)
-    # ---- (2) verdict correspondence
-    verdict_cases = []
-    for res in results:
-        nm = names_for([res["seen"]])
-        verdict_cases.append("(%s, %s)" % (mf.stmt_to_coq(res["seen"], nm), "true" if res["accepted"] else "false"))
-    bad_verdict = ctx.coq_eval_failing(HEADER, "verdict_case", "verdict_agrees", verdict_cases, shard=150)
-    neq_verdict = ctx.coq_eval_failing(HEADER, "verdict_case", "verdict_equal", verdict_cases, shard=150)
-    unknown_verdict = ctx.coq_eval_failing(HEADER, "verdict_case", "verdict_known", verdict_cases, shard=150)
-    # ---- (3) safe bucket of accepted loops, with the clauses the implementation wrote
     acc_idx = [i for i, r in enumerate(results) if r["accepted"] and r.get("clauses") is not None]
-    safe_cases = []
-    for i in acc_idx:
+    for pos, i in enumerate(acc_idx):
         res = results[i]
         nm = names_for([res["seen"]], res["clauses"][0] + res["clauses"][1])
-        safe_cases.append("(%s, (%s, %s))" % (mf.stmt_to_coq(res["seen"], nm), nlist(res["clauses"][0], nm), nlist(res["clauses"][1], nm)))
-    unsafe = set(ctx.coq_eval_failing(HEADER, "safe_case", "safe_holds", safe_cases, shard=150))
-    ctx.log("infer cases=%d differ=%d | verdict cases=%d impl-accepts-model-rejects=%d differ=%d outside-class=%d | accepted=%d gap=%d"
-            % (len(infer_cases), len(bad_infer), len(verdict_cases), len(bad_verdict), len(neq_verdict),
-               len(unknown_verdict), len(acc_idx), len(unsafe)))
-    ctx.notes["verdict_model_outside_class"] = len(unknown_verdict)
-    ctx.notes["verdict_impl_stricter_than_model"] = len(set(neq_verdict) - set(bad_verdict))
+        add("JSafe", "(%s, (%s, %s))" % (mf.stmt_to_coq(res["seen"], nm), nlist(res["clauses"][0], nm), nlist(res["clauses"][1], nm)), pos)
+    stores = make_stores(ctx.rng("stores"), ctx.pick(6, 10))
+    xv_n = add_xv_jobs(ctx, [results[i] for i in acc_idx], stores, add)
+    failing = ctx.coq_eval_failing(HEADER + JOBS, "job", "run_job", jobs, shard=ctx.pick(1 + len(jobs) // 2, 500))
+    bad_infer, bad_verdict, neq_verdict, unknown_verdict, unsafe, xv_bad = [], [], [], [], set(), []
+    for k in failing:
+        kind, ref = tags[k]
+        {"JInfer": bad_infer, "JVerdict": bad_verdict, "JEqual": neq_verdict, "JKnown": unknown_verdict,
+         "JXv": xv_bad}.get(kind, []).append(ref)
+        if kind == "JSafe":
+            unsafe.add(ref)
+    n_infer = sum(1 for t in tags if t[0] == "JInfer")
+    ctx.log("infer cases=%d differ=%d | verdict cases=%d impl-accepts-model-rejects=%d differ=%d outside-class=%d | "
+            "accepted=%d gap=%d | omp_run vs Coq omp_exec: %d cases %d differ"
+            % (n_infer, len(bad_infer), len(results), len(bad_verdict), len(neq_verdict),
+               len(unknown_verdict), len(acc_idx), len(unsafe), xv_n, len(xv_bad)))
+    if ctx.thorough:
+        ctx.notes["verdict_model_outside_class"] = len(unknown_verdict)
+        ctx.notes["verdict_impl_stricter_than_model"] = len(set(neq_verdict) - set(bad_verdict))
+    ctx.notes["infer_cases"] = n_infer
+    ctx.notes["omp_run_vs_coq_omp_exec"] = {"cases": xv_n, "differ": len(xv_bad)}
 
     # ---- the property itself on every accepted loop
-    stores = make_stores(ctx.rng("stores"), ctx.pick(6, 10))
     srng = ctx.rng("sched")
     failures = []           # (index, keys, replay)
     clause_text_mismatch = []
@@ -712,10 +794,6 @@ def run(ctx):
     for i in acc_idx[:3] + acc_idx[-2:]:
         ctx.sample({"source": results[i]["source"], "directive": results[i].get("directive_line")})
 
-    # ---- cross-check of the Python omp_run against Coq omp_exec on a sample
-    xv_bad, xv_n = cross_validate_omp(ctx, [results[i] for i in acc_idx], stores)
-    ctx.notes["omp_run_vs_coq_omp_exec"] = {"cases": xv_n, "differ": len(xv_bad)}
-
     # ---- thorough: compiled OpenMP runs
     gf_bad = []
     if ctx.thorough or os.environ.get("C09_GFORTRAN"):
@@ -746,7 +824,7 @@ def run(ctx):
     problems = []
     if bad_infer:
         k = bad_infer[0]
-        shown = ctx.coq_eval_show(HEADER, ["infer3 (fst %s)" % infer_cases[k]])
+        shown = ctx.coq_eval_show(HEADER, ["infer3 (fst %s)" % [j for j, t in zip(jobs, tags) if t == ("JInfer", k)][0][len("(JInfer "):-1]])
         problems.append({"broken": "correspondence Model.infer3 = OMPParallelDirective.infer_sharing_attributes",
                          "n_differing": len(bad_infer), "first_differing_case": {"kind": infer_src[k][0], "source": infer_src[k][1],
                                                                                   "impl_private_fprivate_sync": infer_src[k][2],
@@ -772,24 +850,25 @@ def run(ctx):
                        "note": "concrete failing inputs are reported separately"}, no_input=True)
 
 
-def cross_validate_omp(ctx, accepted, stores):
-    """Python omp_run == Coq omp_exec (vm_compute) on a sample: final values of every non-privatised location"""
+def add_xv_jobs(ctx, accepted, stores, add):
+    """Python omp_run == Coq omp_exec (vm_compute) on a sample: final values of every non-privatised location.
+    The store is restricted to the locations the run touches (others are 0 on both sides)."""
     rng = ctx.rng("xv")
-    cases = []
-    for res in accepted[:ctx.pick(25, 120)]:
+    n_cases = 0
+    for res in accepted[:ctx.pick(20, 150)]:
         loop = res["seen"]
         private, fprivate = res["clauses"]
-        vals = dict(stores[rng.randrange(len(stores))])
-        names = mf.all_names([loop])
-        vals = {k: v for k, v in vals.items() if k[0] in names and (not k[1] or all(-3 <= q <= 9 for q in k[1]))}
-        try:
-            _, _, n = iter_count(loop, mf.Store(vals, BNDS))
-        except mf.FaultExc:
+        full = stores[rng.randrange(len(stores))]
+        ser = mf.interp([loop], full, BNDS)
+        if ser[0] != "ok":
             continue
+        touched = {ev[1] for ev in ser[2] if ev[0] in ("R", "W")}
+        names = mf.all_names([loop])
+        vals = {k: v for k, v in full.items() if k in touched or (not k[1] and k[0] in names)}
+        _, _, n = iter_count(loop, mf.Store(vals, BNDS))
         sch = schedules(n, rng, 30)
         sched = sch[rng.randrange(len(sch))]
-        junk = 4242
-        got = omp_run(loop, vals, private, fprivate, sched, junk)
+        got = omp_run(loop, vals, private, fprivate, sched, 4242)
         nm = names_for([loop], list(private) + list(fprivate))
         if got is None:
             exp = "None"
@@ -800,22 +879,9 @@ def cross_validate_omp(ctx, accepted, stores):
             exp = "(Some [%s])" % fin
         pf = "(mkClauses %s %s)" % (nlist([p for p in private if p != loop[1]], nm), nlist(fprivate, nm))
         sc = core.coq_list("(%d%%nat, %d%%nat)" % (t, k) for t, k in sched)
-        cases.append("(%s, %s, %s, %s, %s)" % (mf.stmt_to_coq(loop, nm), pf, sc, mf.store_to_coq(vals, BNDS, nm), exp))
-    header = HEADER + """
-Definition xv_case := (stmt * clauses * list (nat * nat) * store * option (list (loc * Z)))%type.
-Definition junk_store : store := mkStore (fun _ => 4242) (fun _ => []).
-Definition xv_check (c : xv_case) : bool :=
-  match c with
-  | (loop, cl, sched, s, exp) =>
-      match omp_exec 4000 cl loop (fun _ => junk_store) sched s, exp with
-      | Some s', Some fin => forallb (fun lv => Z.eqb (val s' (fst lv)) (snd lv)) fin
-      | None, None => true
-      | _, _ => false
-      end
-  end."""
-    bad = ctx.coq_eval_failing(header, "xv_case", "xv_check", cases, shard=40) if cases else []
-    ctx.log("omp_run vs Coq omp_exec: %d cases, %d differ" % (len(cases), len(bad)))
-    return bad, len(cases)
+        add("JXv", "(%s, %s, %s, %s, %s)" % (mf.stmt_to_coq(loop, nm), pf, sc, mf.store_to_coq(vals, BNDS, nm), exp), n_cases)
+        n_cases += 1
+    return n_cases
 
 
 def gfortran_runs(ctx, impl, accepted, stores):
@@ -873,18 +939,25 @@ def gfortran_runs(ctx, impl, accepted, stores):
                         exp.append(ser[1].get((v, (k, l2))))
         jobs.append((j, res, exp))
     core.sh("ls p*.f90 | xargs -P 16 -I{} sh -c 'gfortran -fopenmp -O1 -o {}.x {} 2>{}.err'", cwd=d, timeout=900)
-    bad, nruns = [], 0
+    bad, nruns, inconclusive = [], 0, 0
     for j, res, exp in jobs:
         exe = d / ("p%d.f90.x" % j)
         if not exe.exists():
-            bad.append((j, {"source": res["source"]}, "gfortran failed: " + (d / ("p%d.f90.err" % j)).read_text()[-400:]))
+            err = (d / ("p%d.f90.err" % j)).read_text() if (d / ("p%d.f90.err" % j)).exists() else ""
+            if "Error" in err:       # the written OpenMP program does not compile: a concrete failure
+                bad.append((j, {"source": res["source"], "program": (d / ("p%d.f90" % j)).read_text()}, "gfortran rejects the program: " + err[-400:]))
+            else:                    # compiler killed / timed out under load: inconclusive, never a failure
+                inconclusive += 1
             continue
         for nt in range(1, 9):
             for sk in ("static", "dynamic", "guided", "static,1"):
                 if sk == "static,1" and nt not in (2, 3):
                     continue
                 env = dict(os.environ, OMP_NUM_THREADS=str(nt), OMP_SCHEDULE=sk)
-                rc, out = core.sh([str(exe)], timeout=30, env=env)
+                rc, out = core.sh([str(exe)], timeout=120, env=env)
+                if rc == 124:        # timed out (machine load): inconclusive, never a failure
+                    inconclusive += 1
+                    continue
                 nruns += 1
                 try:
                     got = [int(q) for q in out.split()]
@@ -898,6 +971,6 @@ def gfortran_runs(ctx, impl, accepted, stores):
                 continue
             break
     ctx.log("gfortran -fopenmp: %d programs, %d runs, %d differ" % (len(jobs), nruns, len(bad)))
-    ctx.notes["gfortran_openmp"] = {"programs": len(jobs), "runs": nruns, "differ": len(bad),
+    ctx.notes["gfortran_openmp"] = {"programs": len(jobs), "runs": nruns, "differ": len(bad), "inconclusive_timeouts": inconclusive,
                                     "threads": "1..8", "schedules": "static, dynamic, guided (+static,1)"}
     return bad
